@@ -355,7 +355,7 @@ def periodogram_csd(s, Fs=2 * np.pi, Sk=None, NFFT=None, sides='default',
             for j in range(i + 1):
                 csd_pairs[i, j] = Sk_loc[i] * Sk_loc[j].conj()
     if normalize:
-        csd_pairs /= (Fs*N)
+        csd_pairs /= (Fs * s.shape[-1])
 
     csd_mat = csd_pairs.transpose(1,0,2).conj()
     csd_mat += csd_pairs
